@@ -19,6 +19,9 @@ checks={
  "C12":dict(text=LVL+"every tree of error combinators within the bounds is built from selectors and the result is checked against the leaf multiset computed alongside: nil-ness, identity of a single plain error, errors.Is for every leaf and not for an unrelated sentinel, errors.As, Unwind multiset and most-recent-first order; Collector sequentially and under the scheduler",
             note="depth <=2, <=4 (quick) / <=5 (thorough) leaves; errors.Is/As are stubs implementing the documented algorithm over interpreted Is/As/Unwrap methods; fmt.Errorf stub builds the real *fmt.wrapError; the solver's share is small (typed-leaf payload equality, path feasibility)",
             ref="§5 C12", tech="SSA symbolic execution, case-split of tree selectors, SMT for payload equality"),
+ "C07":dict(text=LVL+"scenarios of up to four client goroutines on Queue/Deque/Distributor run under a symbolic scheduler (explicit mutex/cond/channel/context models, sleep-set reduction, preemption bound); the wake-up clauses are assertions at quiescence, item values stay symbolic",
+            note="<=2 waiters x <=2 producers (+ library helper goroutines), preemption bound 2 (Queue) / 1 (Deque) quick, 3 / 2 thorough; 'promptly' = at quiescence under weak fairness; spinning wait loops are treated as blocked (no-progress cycle detection); sleep sets are applied under the preemption bound (bound applies to the representative explored); trusted: sync/cond/channel/context models of DESIGN §3.2",
+            ref="§5 C07", tech="SSA symbolic execution with symbolic scheduler (bounded, sleep sets) + SMT for data"),
 }
 NA={}
 m={"version":1,
